@@ -124,6 +124,20 @@ func CheckApi(sc *Scenario, out *ApiRunOut, res *RunResult) {
 		}
 	}
 
+	// a result must belong to its own search: a best move that is illegal in
+	// this search's root but is the answer of the previous search is a
+	// leftover of that search
+	if c14 {
+		prevBest := ""
+		for _, f := range out.Final {
+			c := out.Calls[f.Call]
+			if c.Root != nil && len(c.Root.LegalMoves()) > 0 && f.Best != "NoMove" && !c.Root.IsLegal(f.Best) && f.Best == prevBest {
+				res.addViolation("C14", "answered_by_earlier_result", fmt.Sprintf("search on %s answered with %s, the result of the previous search, which is not a legal move here", c.Root.Fen(), f.Best))
+			}
+			prevBest = f.Best
+		}
+	}
+
 	// --- per search results (C05, C07 root half, C13) ------------------------
 	for _, f := range out.Final {
 		c := out.Calls[f.Call]
